@@ -132,6 +132,8 @@ def bounded_case_arms(tier, seed):
                     if not (code.isdigit() and code.startswith("2")):
                         continue
                     n += 1
+                    if isinstance(resp, dict) and isinstance(resp.get("$ref"), str) and resp["$ref"].startswith("#/components/responses/"):
+                        resp = ((g.doc.get("components") or {}).get("responses") or {}).get(resp["$ref"].rsplit("/", 1)[1], resp)  # a shared response object
                     want = _expected_kind(resp)
                     if code not in arms:
                         failures.append({"id": f"bounded:case-arm:{g.name.split('@')[0]}:{o['method']} {o['path']}:{code}:missing",
